@@ -333,6 +333,7 @@ theorem mount_cases (s : State) (hn : s.nextSuper < 256) (b : Bk) (path : Name) 
 theorem umount_cases (s : State) (path : Name) :
     (s.umount path).1 = s ∨
     ∃ inode m pseudo, s.mnts inode = some m ∧
+      (s.rmRoot = false → pseudo = s.pseudo) ∧
       (s.umount path).1 = { s with pseudo := pseudo, mnts := upd s.mnts inode none,
                                    supers := upd s.supers m.idx none, mountMaps := upd s.mountMaps m.idx none } := by
   unfold State.umount
@@ -340,7 +341,9 @@ theorem umount_cases (s : State) (path : Name) :
   repeat' split
   all_goals first
     | exact Or.inl rfl
-    | (refine Or.inr ⟨_, _, _, ?_, rfl⟩; assumption)
+    | (refine Or.inr ⟨_, _, _, ?_, ?_, rfl⟩
+       · assumption
+       · intro hr; simp_all)
 
 theorem umount_inv {s : State} (h : Inv s) (path : Name) : Inv (s.umount path).1 := by
   unfold State.umount
